@@ -665,6 +665,64 @@ func init() {
 		}
 		return "ok:" + joinOr(xs, ",") + "/" + itoa(t.Threshold)
 	}
+	// stale <reconnect 0|1> => <first>,<second>       (OBSERVATION at the edge of the statement, labelled so)
+	//   A (peer 0) and B (peer 1) are mutual members and exchange a message. Then B adopts a topology without A exactly as
+	//   RefreshEventHandler does (SetTopology + LoadPeers). A sends again — over the connection that already exists
+	//   (reconnect=0), or after B closed its connections to A (reconnect=1). The gater is consulted when a connection is
+	//   made, not per stream: an existing connection of a removed peer keeps delivering until it is closed.
+	ops["C13.stale"] = func(a []string) string {
+		ta, tb := c13Topo("0,1/1"), c13Topo("0,1/1")
+		gB := p2p.NewConnectionGate(tb)
+		hB, err := p2p.NewHost(c13Privs[1], tb, gB, 0)
+		if err != nil {
+			return "hosterr"
+		}
+		defer hB.Close()
+		hA, err := p2p.NewHost(c13Privs[0], ta, p2p.NewConnectionGate(ta), 0)
+		if err != nil {
+			return "hosterr"
+		}
+		defer hA.Close()
+		hA.Peerstore().ClearAddrs(c13IDs[1])
+		var loop []ma.Multiaddr
+		for _, m := range hB.Addrs() {
+			if strings.HasPrefix(m.String(), "/ip4/127.0.0.1/tcp/") {
+				loop = append(loop, m)
+			}
+		}
+		if len(loop) == 0 {
+			return "noaddr"
+		}
+		hA.Peerstore().AddAddrs(c13IDs[1], loop[:1], peerstore.PermanentAddrTTL)
+		cA := p2p.NewCommunication(hA, "p2p/sygma")
+		cB := p2p.NewCommunication(hB, "p2p/sygma")
+		ch := make(chan *comm.WrappedMessage, 4)
+		cB.Subscribe("s-stale", comm.TssKeySignMsg, ch)
+		recv := func(wait time.Duration) string {
+			select {
+			case m := <-ch:
+				return "delivered:" + c13Idx(m.From)
+			case <-time.After(wait):
+				return "refused"
+			}
+		}
+		_ = cA.Broadcast(peer.IDSlice{c13IDs[1]}, []byte{1}, comm.TssKeySignMsg, "s-stale")
+		first := recv(15 * time.Second)
+		nt := c13Topo("1,2/1") // B's new topology: A removed
+		gB.SetTopology(nt)
+		p2p.LoadPeers(hB, nt.Peers)
+		wait := 15 * time.Second
+		if a[0] == "1" {
+			_ = hB.Network().ClosePeer(c13IDs[0])
+			cA.CloseSession("s-stale")
+			for i := 0; i < 200 && len(hA.Network().ConnsToPeer(c13IDs[1])) > 0; i++ {
+				time.Sleep(10 * time.Millisecond)
+			}
+			wait = 1500 * time.Millisecond
+		}
+		_ = cA.Broadcast(peer.IDSlice{c13IDs[1]}, []byte{2}, comm.TssKeySignMsg, "s-stale")
+		return first + "," + recv(wait)
+	}
 	gens["C13"] = genC13
 }
 
@@ -759,6 +817,11 @@ func genC13(g *G) {
 				}
 			}
 		}
+	}
+	// 3b'. OBSERVATION: a peer removed by a refresh — new connection refused, existing connection not re-examined
+	for i := 0; i < g.Count(1, 10); i++ {
+		g.Emit("stale", "0")
+		g.Emit("stale", "1")
 	}
 	// 3c. TEST: what `topology encrypt` prints is accepted by the provider under the printed hash
 	for i := 0; i < g.Count(12, 300); i++ {
